@@ -180,6 +180,12 @@ mod sd {
     use gdsl::sync_digraph::*;
     include!("directed.rs");
     include!("own.rs");
+    fn query_all(n: &Node<u64, i64, u64>) {
+        let _ = n.out_degree() + n.in_degree();
+        let _ = n.is_root() || n.is_leaf() || n.is_orphan();
+        let _ = n.is_connected(&2);
+    }
+    include!("conc.rs");
 }
 mod u {
     pub const FLAVOUR: &str = "ungraph";
@@ -234,6 +240,12 @@ mod su {
     use gdsl::sync_ungraph::*;
     include!("undirected.rs");
     include!("own.rs");
+    fn query_all(n: &Node<u64, i64, u64>) {
+        let _ = n.degree();
+        let _ = n.is_orphan();
+        let _ = n.is_connected(&2);
+    }
+    include!("conc.rs");
 }
 
 fn run_flavour(flavour: &str, cases: &[Case], out: &mut dyn Write, panics: &mut dyn Write, start: usize) {
@@ -278,6 +290,17 @@ fn run_flavour(flavour: &str, cases: &[Case], out: &mut dyn Write, panics: &mut 
 
 fn main() {
     let args: Vec<String> = std::env::args().collect();
+    if args.len() >= 4 && args[1] == "stress" {
+        // harness stress <sync flavour> <scenario> [millis]
+        let ms: u64 = args.get(4).map(|s| s.parse().unwrap()).unwrap_or(3000);
+        let v = match args[2].as_str() {
+            "sync_digraph" => sd::conc::stress(&args[3], ms),
+            "sync_ungraph" => su::conc::stress(&args[3], ms),
+            _ => "unsupported".to_string(),
+        };
+        println!("{}", v);
+        std::process::exit(if v == "ok" { 0 } else { 4 });
+    }
     if args.len() < 5 || args[1] != "run" {
         eprintln!("usage: harness run <flavour> <casefile> <outfile> [start_case_index] [hang_secs]");
         std::process::exit(2);
@@ -291,6 +314,17 @@ fn main() {
         let msg = format!("{}", info);
         LAST_PANIC.with(|p| *p.borrow_mut() = msg);
     }));
+    // single-threaded runs of the sync flavours: a lock point reached while a guard on the same lock is alive
+    // (re-entrant acquisition: self-deadlock for a writer, "may deadlock" for recursive reads) is a reported failure
+    #[cfg(gdsl_verif)]
+    gdsl::verif_hook::install(Some(Arc::new(|key: &str, is_write: bool, probe: &dyn Fn(bool) -> bool| {
+        if probe(is_write) {
+            panic!("verif: self-deadlock: node {} is locked {} while a conflicting guard is alive", key, if is_write { "for writing" } else { "for reading" });
+        }
+        if probe(true) {
+            panic!("verif: node {} is locked again while a guard on it is still alive (recursive read may deadlock)", key);
+        }
+    })));
     let cases = Arc::new(parse_cases(&text));
     let done = Arc::new(std::sync::atomic::AtomicBool::new(false));
     let done2 = done.clone();
